@@ -236,53 +236,58 @@ structure Layout where
   scale : Rat := 1
 deriving Repr
 
+/-- the `# rescale` block: a missing (falsy) dimension is derived from the other one and the aspect of the layout -/
+def effDims (width height : Option Rat) (spanX spanY : Rat) : Option Rat × Option Rat :=
+  if truthy width ∧ ¬ truthy height then
+    (width, some ((width.getD 0) * (if spanX ≠ 0 ∧ spanY ≠ 0 then spanY / spanX else 1)))
+  else if truthy height ∧ ¬ truthy width then
+    (some ((height.getD 0) * (if spanX ≠ 0 ∧ spanY ≠ 0 then spanX / spanY else 1)), height)
+  else (width, height)
+
+/-- the `# text` block: what is added to every abscissa and to every ordinate to make room for the names;
+    `x` = the abscissas before the shift -/
+def nameShift (lens : Option (List Nat)) (namePos : NamePos) (fs : Rat) (x : List Rat) : Rat × Rat :=
+  match lens with
+  | none => (0, 0)
+  | some lens =>
+    -- (`lens` has one entry per node, or a single entry that numpy broadcasts)
+    let lenAt := fun i => (((if lens.length = 1 then lens.getD 0 0 else lens.getD i 0) : Nat) : Rat)
+    let clamp := fun (ml : Rat) => if ml > 0 then ml else 0
+    match namePos with
+    | .left => (clamp (- lmin (tab x.length fun i => x.getD i 0 - lenAt i * fs)), 0)
+    | .right => (0, 0)
+    | .above => (clamp (- lmin (tab x.length fun i => x.getD i 0 - lenAt i * fs / 2)), fs)
+    | _ => (clamp (- lmin (tab x.length fun i => x.getD i 0 - lenAt i * fs / 2)), 0)   -- 'below', any other string
+
+/-- `lengths * font_size` cannot be broadcast against the abscissas -/
+def lensMismatch (lens : Option (List Nat)) (n : Nat) : Bool :=
+  match lens with
+  | some lens => lens.length != n && lens.length != 1
+  | none => false
+
+/-- the `# margins` block -/
+def effMargin (lay : Layout) : Rat :=
+  max (max lay.margin (if lay.displayNodeWeight then lay.nodeSizeMax else 0)) lay.nodeSize
+
 /-- `rescale(position, width, height, margin, node_size, node_size_max, display_node_weight, names, name_position,
     font_size)`; `lens` = `len(str(name))` of the names. Returns the positions only (width and height are printed
     numbers). -/
 def rescale (pos : List (Rat × Rat)) (width height : Option Rat) (lay : Layout) (lens : Option (List Nat))
-    (namePos : NamePos) : Except PyErr (List (Rat × Rat)) := do
-  if pos.isEmpty then throw .valueError          -- np.max of an empty array
-  let xs := pos.map (·.1)
-  let ys := pos.map (·.2)
-  let spanX := lmax xs - lmin xs
-  let spanY := lmax ys - lmin ys
-  let x := minMaxScaling xs
-  let y := (minMaxScaling ys).map fun v => 1 - v
-  let (width, height) :=
-    if truthy width ∧ ¬ truthy height then
-      (width, some ((width.getD 0) * (if spanX ≠ 0 ∧ spanY ≠ 0 then spanY / spanX else 1)))
-    else if truthy height ∧ ¬ truthy width then
-      (some ((height.getD 0) * (if spanX ≠ 0 ∧ spanY ≠ 0 then spanX / spanY else 1)), height)
-    else (width, height)
-  match width, height with
-  | some w, some h =>
-    if let some lens := lens then
-      if lens.length ≠ pos.length ∧ lens.length ≠ 1 then throw .valueError   -- shapes cannot be broadcast
-    let x := x.map (· * w)
-    let y := y.map (· * h)
-    let fs := lay.fontSize
-    let (x, y) := match lens with
-      | none => (x, y)
-      | some lens =>
-        -- (`lens` has one entry per node, or a single entry that numpy broadcasts; checked below)
-        let lenAt := fun i => (((if lens.length = 1 then lens.getD 0 0 else lens.getD i 0) : Nat) : Rat)
-        match namePos with
-        | .left =>
-          let ml := - lmin (tab x.length fun i => x.getD i 0 - lenAt i * fs)
-          let ml := if ml > 0 then ml else 0
-          (x.map (· + ml), y)
-        | .right => (x, y)
-        | .above =>
-          let ml := - lmin (tab x.length fun i => x.getD i 0 - lenAt i * fs / 2)
-          let ml := if ml > 0 then ml else 0
-          (x.map (· + ml), y.map (· + fs))
-        | _ =>      -- 'below' and every other string
-          let ml := - lmin (tab x.length fun i => x.getD i 0 - lenAt i * fs / 2)
-          let ml := if ml > 0 then ml else 0
-          (x.map (· + ml), y)
-    let m := max (max lay.margin (if lay.displayNodeWeight then lay.nodeSizeMax else 0)) lay.nodeSize
-    pure (tab pos.length fun i => (x.getD i 0 + m, y.getD i 0 + m))
-  | _, _ => throw .typeError                        -- `position * np.array([None, …])`
+    (namePos : NamePos) : Except PyErr (List (Rat × Rat)) :=
+  if pos.isEmpty then .error .valueError          -- np.max of an empty array
+  else
+    let xs := pos.map (·.1)
+    let ys := pos.map (·.2)
+    match effDims width height (lmax xs - lmin xs) (lmax ys - lmin ys) with
+    | (some w, some h) =>
+      if lensMismatch lens pos.length then .error .valueError   -- shapes cannot be broadcast
+      else
+        let x := (minMaxScaling xs).map (· * w)
+        let y := (minMaxScaling ys).map fun v => (1 - v) * h
+        let shift := nameShift lens namePos lay.fontSize x
+        .ok (tab pos.length fun i =>
+          (x.getD i 0 + shift.1 + effMargin lay, y.getD i 0 + shift.2 + effMargin lay))
+    | _ => .error .typeError                        -- `position * np.array([None, …])`
 
 /-! ### `get_edge_colors` -/
 
@@ -440,9 +445,10 @@ def graphDirected (a : GraphArgs) : Bool :=
   | none => !isSymmetric (graphN a) (graphEs a)
 
 /-- `rescale(...)` followed by `position *= scale` -/
-def finalPos (a : GraphArgs) : Except PyErr (List (Rat × Rat)) := do
-  let pos ← rescale a.pos a.width a.height a.lay (a.names.map fun l => l.map List.length) a.namePos
-  pure (pos.map fun p => (p.1 * a.lay.scale, p.2 * a.lay.scale))
+def finalPos (a : GraphArgs) : Except PyErr (List (Rat × Rat)) :=
+  match rescale a.pos a.width a.height a.lay (a.names.map fun l => l.map List.length) a.namePos with
+  | .error e => .error e
+  | .ok pos => .ok (pos.map fun p => (p.1 * a.lay.scale, p.2 * a.lay.scale))
 
 /-- `edge_color` when it is `None` -/
 def defaultEdgeColor (edgeColor : Option PyStr) (noNames : Bool) : PyStr :=
@@ -473,15 +479,20 @@ def residEdges (ν : Nums) (directed : Bool) (pos : List (Rat × Rat)) (residual
     let r := residual.getD k (0, 0, [])
     graphEdge ν directed pos Slot.redge k r.1 r.2.1 r.2.2
 
-/-- the `if display_edges:` block of `visualize_graph` -/
-def graphEdges (ν : Nums) (a : GraphArgs) (pos : List (Rat × Rat)) : Except PyErr (List Piece) :=
-  if a.displayEdges then do
-    let ec ← getEdgeColors (graphN a) (graphN a) (graphEs a) a.edgeLabels
-      (defaultEdgeColor a.edgeColor a.names.isNone) a.labelColors
-    let stored ← storedEdges ν (graphDirected a) (graphEs a) pos ec
-    pure ((if graphDirected a then (dedup ec.colors).flatMap svgMarker else []) ++
-      (stored ++ residEdges ν (graphDirected a) pos ec.residual))
-  else pure []
+/-- the `if display_edges:` block of `visualize_graph`: the colours that get a marker definition, and the edges -/
+def graphEdgeParts (ν : Nums) (a : GraphArgs) (pos : List (Rat × Rat)) : Except PyErr (List PyStr × List Piece) :=
+  if a.displayEdges then
+    match getEdgeColors (graphN a) (graphN a) (graphEs a) a.edgeLabels
+        (defaultEdgeColor a.edgeColor a.names.isNone) a.labelColors with
+    | .error e => .error e
+    | .ok ec =>
+      match storedEdges ν (graphDirected a) (graphEs a) pos ec with
+      | .error e => .error e
+      | .ok stored =>
+        if ec.residual.any (fun r => r.1 ≥ pos.length ∨ r.2.1 ≥ pos.length) then .error PyErr.indexError
+        else .ok (if graphDirected a then dedup ec.colors else [],
+                  stored ++ residEdges ν (graphDirected a) pos ec.residual)
+  else .ok ([], [])
 
 /-- `for i in node_order:` -/
 def graphNodes (ν : Nums) (nodeOrder : List Nat) (npos : Nat) (probs : Option Probs) (nodeColors : List PyStr) :
@@ -514,10 +525,10 @@ def visualizeGraph (ν : Nums) (a : GraphArgs) : Except PyErr Drawing := do
   let n := graphN a
   let nodeColors ← getNodeColors ν 0 n a.labels a.scores a.probs.isSome a.nodeColor a.labelColors
   let pos ← finalPos a
-  let edges ← graphEdges ν a pos
+  let edges ← graphEdgeParts ν a pos
   let nodes ← graphNodes ν (a.nodeOrder.getD (List.range n)) pos.length a.probs nodeColors
   let text ← namesText ν 0 n a.names a.namePos
-  pure (writeFile a.filename (svgDoc ν false true (edges ++ (nodes ++ text))))
+  pure (writeFile a.filename (svgDoc ν false true (edges.1.flatMap svgMarker ++ (edges.2 ++ (nodes ++ text)))))
 
 /-! ### `visualize_bigraph` -/
 
